@@ -53,6 +53,7 @@ func VerifC19Proxy() {
 		}
 	}
 	// the application behind the proxy
+	appCookies := rt.Choose("app.cookies", 3)
 	upstream := 0
 	var posAtArrival, posAfterWrite ltx.Pos
 	rt.Stub("(*net/http.Transport).RoundTrip", func(t *http.Transport, req *http.Request) (*http.Response, error) {
@@ -62,10 +63,18 @@ func VerifC19Proxy() {
 			litefs.VerifSetPos(db, uint64(db.Pos().TXID)+1, rt.U64("write.chk")) // the application's write commits
 		}
 		posAfterWrite = db.Pos()
-		return &http.Response{StatusCode: 200, Header: http.Header{}, Body: io.NopCloser(bytes.NewReader([]byte("ok")))}, nil
+		// the application's response: its own cookies (0..2) and a header with two values
+		h := http.Header{"X-Multi": {"1", "2"}}
+		for i := 0; i < appCookies; i++ {
+			h["Set-Cookie"] = append(h["Set-Cookie"], []string{"session=abc", "theme=dark"}[i])
+		}
+		return &http.Response{StatusCode: 201, Header: h, Body: io.NopCloser(bytes.NewReader([]byte("ok")))}, nil
 	})
 	var setCookie *http.Cookie
-	rt.Stub("net/http.SetCookie", func(w http.ResponseWriter, c *http.Cookie) { setCookie = c })
+	rt.Stub("net/http.SetCookie", func(w http.ResponseWriter, c *http.Cookie) {
+		setCookie = c
+		w.Header().Add("Set-Cookie", c.Name+"="+c.Value) // what net/http does, without the attribute rendering
+	})
 
 	w := &verifRW{}
 	s.serveHTTP(w, r)
@@ -118,5 +127,27 @@ func VerifC19Proxy() {
 	}
 	if !(role == 1 && !isRead || role == 1 && forwarded) || passthrough {
 		rt.Check(w.code != 0, "a status is written")
+	}
+	if upstream == 1 {
+		// whatever the proxy adds, the application's response reaches the client intact - and the proxy's
+		// cookie reaches the client next to the application's own cookies
+		rt.Check(w.code == 201 && string(w.body.B) == "ok", "the application's status and body are relayed")
+		xm := w.Header()["X-Multi"]
+		rt.Check(len(xm) == 2 && xm[0] == "1" && xm[1] == "2", "multi-valued response headers are relayed")
+		sc := w.Header()["Set-Cookie"]
+		want := appCookies
+		if setCookie != nil {
+			want++
+		}
+		rt.Check(len(sc) == want, "the client receives the application's cookies and, after a write, the proxy's TXID cookie - none replaces another")
+		if setCookie != nil {
+			found := false
+			for _, v := range sc {
+				if v == TXIDCookieName+"="+setCookie.Value {
+					found = true
+				}
+			}
+			rt.Check(found, "the TXID cookie issued after a write reaches the client")
+		}
 	}
 }
